@@ -1,3 +1,5 @@
+//go:build !verif_nosearch
+
 package main
 
 import (
